@@ -502,6 +502,23 @@ def _w_dtype(S, item):
         res['cmp'] += 1
         evs = S.take_events()
         S.take_findings()
+        if contig:
+            if o.kind == 'violation' and o.exc.rule == 'R-DTYPE':
+                res['diff'] = 1
+                d = finding('R-DTYPE', label, 'branch-on-dtype-constant', str(o.exc.msg)[:300])
+                loc = getattr(o.exc, 'loc', None)
+                if loc is not None:
+                    d['file'], d['line'], d['function'], d['statement'] = loc.file, loc.line, loc.func, loc.text
+                res['findings'].append(d)
+            for e in evs:
+                if e['kind'] == 'dtype-constant-on-data-path' and any(not n.startswith('tiny[') for n in e['names']):
+                    res['diff'] = 1
+                    d = finding('R-DTYPE', label, 'value-depends-on-dtype-constant',
+                                'a torch.finfo constant (%s) enters the computed values: the float32 and the float64 '
+                                'computation are different functions of the input' % ', '.join(e['names']))
+                    loc = e['loc']
+                    d['file'], d['line'], d['function'], d['statement'] = loc.file, loc.line, loc.func, loc.text
+                    res['findings'].append(d)
         if o.kind != 'ok':
             continue
         if contig:
